@@ -21,9 +21,9 @@ Definition jsf_init (seed : N) : jsf := jsf_warm 20 (mkJsf 4058668781 seed seed 
 Inductive source := SBuf (l : list word) | SRnd (j : jsf).
 
 (* ---- interpreter state ---- *)
-Record st := mkSt { src : source; ts : tstate; nctx : nat }.
-Definition with_src (s : st) (x : source) : st := mkSt x (ts s) (nctx s).
-Definition with_ts (s : st) (t : tstate) : st := mkSt (src s) t (nctx s).
+Record st := mkSt { src : source; ts : tstate }.
+Definition with_src (s : st) (x : source) : st := mkSt x (ts s).
+Definition with_ts (s : st) (t : tstate) : st := mkSt (src s) t.
 
 (* ---- writer part of a computation's output ---- *)
 Record wr := mkW {
@@ -44,6 +44,13 @@ Definition wapp (a b : wr) : wr :=
 (* the attempt that produced [a] is rejected: its bits are pruned, its draws are not replayed *)
 Definition wdiscard (a : wr) : wr :=
   mkW (rd a) [] (glog a) (tr a) [] (nd a) (nf a) (reg a) (dirty a || nf a || reg a).
+(* a kept group all of whose data was pruned away: prune() asserts this never happens, and a replay
+   would trip endGroup's "used no data" assertion; such runs are flagged *)
+Definition wkeep (a : wr) : wr :=
+  match rpd a with
+  | [] => mkW (rd a) [] (glog a) (tr a) (pv a) (nd a) (nf a) (reg a) true
+  | _ => a
+  end.
 Definition wgev (e : gev) : wr := mkW [] [] [e] [] [] 0 false false false.
 Definition wuev (e : uev) : wr := mkW [] [] [] [e] [] 0 false false false.
 
@@ -65,8 +72,17 @@ Definition emit_g (e : gev) : M unit := fun s => mkOut (Ok tt) s (wgev e).
 Definition emit_u (e : uev) : M unit := fun s => mkOut (Ok tt) s (wuev e).
 Definition get_ts : M tstate := fun s => mkOut (Ok (ts s)) s wnil.
 Definition put_ts (t : tstate) : M unit := fun s => mkOut (Ok tt) (with_ts s t) wnil.
-Definition mark (f : wr -> wr) : M unit := fun s => mkOut (Ok tt) s (f wnil).
+(* state updates.  upd_reg: registration-like change, flagged reg; set_failed: flagged nf;
+   upd_cleanup: the unflagged rewriting T.cleanup does (never touches [failed]) *)
+Definition upd_reg (f : tstate -> tstate) : M unit := fun s =>
+  mkOut (Ok tt) (with_ts s (f (ts s))) (mkW [] [] [] [] [] 0 false true false).
+Definition upd_cleanup (f : tstate -> tstate) : M unit := fun s =>
+  mkOut (Ok tt) (with_ts s (f (ts s))) wnil.
+Definition set_failed (m : msg) : M unit := fun s =>
+  let t := ts s in
+  mkOut (Ok tt) (with_ts s (mkT (Some m) (cleanups t) (ctx t) (cleaning t))) (mkW [] [] [] [] [] 0 true false false).
 Definition mark_nf : M unit := fun s => mkOut (Ok tt) s (mkW [] [] [] [] [] 0 true false false).
+Definition mark_dirty : M unit := fun s => mkOut (Ok tt) s (mkW [] [] [] [] [] 0 false false true).
 Definition mark_reg : M unit := fun s => mkOut (Ok tt) s (mkW [] [] [] [] [] 0 false true false).
 (* map over the writer of a computation (used to discard, to reset counters at a T boundary ...) *)
 Definition wmap {A} (f : wr -> wr) (m : M A) : M A := fun s =>
@@ -97,7 +113,7 @@ Definition group_d {A} (standalone : bool) (m : M (A * bool)) : M A := fun s =>
       if d then mkOut (Ok a) (post o) (wapp (wgev (EB standalone)) (wapp (wdiscard (w o)) (wgev (EE true))))
       else match rd (w o) with
            | [] => mkOut (Err (XPanic MGroupNoData (SInternal MGroupNoData))) (post o) (wapp (wgev (EB standalone)) (wapp (w o) (wgev EX)))
-           | _ => mkOut (Ok a) (post o) (wapp (wgev (EB standalone)) (wapp (w o) (wgev (EE false))))
+           | _ => mkOut (Ok a) (post o) (wapp (wgev (EB standalone)) (wapp (wkeep (w o)) (wgev (EE false))))
            end
   | Err e => mkOut (Err e) (post o) (wapp (wgev (EB standalone)) (wapp (w o) (wgev EX)))
   end.
